@@ -18,7 +18,7 @@ def mk_ranking(raw):
     return ck.Ranking([set(b) for b in raw])
 
 
-FORM_COUNTS = {"datasets": 0, "datasets_from_other_forms": 0, "datasets_given_weights": 0}
+FORM_COUNTS = {"datasets": 0, "datasets_from_other_forms": 0, "datasets_given_weights": 0, "datasets_that_are_copies": 0}
 
 
 def dataset_subclass():
@@ -43,6 +43,13 @@ def mk_dataset(raw, name=None):
         # they are, and the unchanged constructor ignores it): non-uniform weights
         FORM_COUNTS["datasets_given_weights"] += 1
         d = ck.Dataset([mk_ranking(r) for r in raw], weights=[float(1 + ((crc >> (2 * i + 5)) % 4) * (i % 2 + 1)) for i in range(len(raw))])
+    elif crc % 12 == 2:
+        # a deep copy / an in-process pickle round trip of the dataset (what a caller who wants to keep the original does)
+        import copy
+        import pickle
+        FORM_COUNTS["datasets_that_are_copies"] += 1
+        d0 = ck.Dataset([mk_ranking(r) for r in raw])
+        d = copy.deepcopy(d0) if (crc >> 7) % 2 else pickle.loads(pickle.dumps(d0))
     else:
         d = ck.Dataset([mk_ranking(r) for r in raw])
     if name is not None:
